@@ -38,6 +38,8 @@ pub fn run(o: &Opts) {
       let Some(src) = srcs.first().cloned() else { continue };
       // texts with multi-byte characters in front of findings: LSP columns are character columns too
       let src = if rng.chance(1, 2) { format!("/* é日😀 */ {src}") } else { src };
+      // a text may begin with a byte order mark: every front end must count it (or not) alike
+      let src = if round % 3 == 1 { out.count("source:starts-with-BOM"); format!("\u{feff}{src}") } else { src };
       let g = corpus::parse(lang, &src);
       let nodes = corpus::all_nodes(g.root());
       let ing = harvest(lang, &nodes, &mut rng);
